@@ -159,7 +159,7 @@ CHECKS: dict[str, tuple[str, str, str, str]] = {
         " with no early exit and the command exits min(sum, 1); every usage-error pre-flight precedes the loop, raises"
         " click.UsageError and has no effects; every option of a mutex table is declared MutexOption with that"
         " table; the anticipated failures (unsupported form, premature terminator) are raised. Every path of _create_new_header that returns a header has evaluated the post-render check (shared with C07-R1; the recorded `and` defect is a known finding here too). The multi-line writer's refusal table; error handlers apply str.format to constant format strings only. The pre-flight predicates has_style / is_uncommentable are defined through get_comment_style.",
-        "Trusted: ast, sa/tab.py, syntactic table of file-system mutators. OS failures of the final write are out of scope.",
+        "Trusted: ast, sa/tab.py, syntactic table of file-system mutators. OS failures of the final write are out of scope; its content-level failure (encoding) is R10: the text is proven encodable before the truncating open.",
         "DESIGN.md §3 C11",
     ),
     "C07": (
@@ -179,7 +179,7 @@ CHECKS: dict[str, tuple[str, str, str, str]] = {
         " (newline=''), line endings are detected before normalisation and the same variable is the newline= of the"
         " write to the same file; that shebang extraction precedes header creation and feeds `before`; that the three"
         " text sections are chained slices of one string; that a BOM is split off before processing and written back"
-        " first. Byte-for-byte preservation of arbitrary bodies is run-time string behaviour and not decided. Every comment_at_first_character returns a prefix of its argument (its length is used as the cut offset). A first-line declaration is split off a block only when nothing but blanks precedes that block (decision table of find_and_replace_header). The line-ending detector is read as a model (presence priority list or frequency count with CRLF subtracted, over the whole text): presence alone cannot tell an LF file with a stray CR from a CR file.",
+        " first. Byte-for-byte preservation of arbitrary bodies is run-time string behaviour and not decided. Every comment_at_first_character returns a prefix of its argument (its length is used as the cut offset). A first-line declaration is split off a block only when nothing but blanks precedes that block (decision table of find_and_replace_header). The header text is proven encodable before the truncating open (shared with C11-R10). The line-ending detector is read as a model (presence priority list or frequency count with CRLF subtracted, over the whole text): presence alone cannot tell an LF file with a stray CR from a CR file.",
         "Trusted: ast, sa/tab.py.",
         "DESIGN.md §3 C08",
     ),
@@ -241,7 +241,7 @@ CHECKS: dict[str, tuple[str, str, str, str]] = {
         " (_MultiprocessingContainer.__call__) is applied to an object the task created itself (freshness analysis with"
         " return summaries; two named exceptions for the lazy dep5 memo), so no state is carried from one file to the"
         " next. Listing order of output is deliberately not a sink. Independence of cwd and of"
-        " the spelling of --root depends on run-time path arithmetic and is not decided. Glob patterns built from run-time paths escape them; sorted() with a key that can tie over a set is an order hazard. VCS membership tests compare paths of the same base and VCS output keeps its spelling (shared with C03).",
+        " the spelling of --root depends on run-time path arithmetic and is not decided. Glob patterns built from run-time paths escape them; sorted() with a key that can tie over a set is an order hazard. VCS membership tests compare paths of the same base and VCS output keeps its spelling and is not decoded lossily (shared with C03). The report drivers do not mutate the Project they are handed (same freshness analysis). Inside the LICENSES/ scan every membership test on a container the scan itself fills is about keys the scan never adds, or one of three reads confirmed order-symmetric (R12).",
         "Trusted: ast, mypy types/callees, table T3 (sorted, list.sort, boolean.py simplify sorts operands).",
         "DESIGN.md §3 C14",
     ),
